@@ -4,6 +4,9 @@ Properties in properties.jsonl that have no registry entry are listed under not_
 import json, os
 ROOT = os.path.dirname(os.path.dirname(os.path.abspath(__file__)))
 reg = json.load(open(os.path.join(ROOT, "harness", "registry.json")))
+import glob
+for f in sorted(glob.glob(os.path.join(ROOT, "harness", "registry.d", "C*.json"))):
+    reg["checks"][os.path.basename(f)[:-5]] = json.load(open(f))
 props = [json.loads(l) for l in open(os.path.join(ROOT, "properties.jsonl"))]
 checks, na = [], []
 for p in props:
